@@ -7,6 +7,18 @@ VERIF = os.path.dirname(os.path.dirname(os.path.abspath(__file__)))
 
 # id -> (technique, level text, level note, design ref)
 BUILT = {
+    'C08': ('Hypothesis random search over (Hermitian MPO, sector state, integrator, step, Krylov iterations); conservation-law and metamorphic (input scaling) oracle against independent dense forms',
+            'Exploration: built-in models and random Hermitian MPOs with charges, L 1..5, arbitrary bond profiles, 1..8 local Krylov iterations, 1..4 steps, repeated calls; norm, energy (exact invariants of every '
+            'Krylov sub-step), returned norm, dependence on the normalised input only, sector confinement of the dense state, block sparsity, immutability of H and bond monotonicity (single-site) are judged.',
+            'dense reach d^L <= 128 (256 thorough); 1e-10 max(1, ||H||)', '4 (C08)'),
+    'C09': ('Hypothesis random search over complete manifolds constructed from sector counts; differential oracle scipy expm; round-trip (dt, -dt) oracle for reversibility',
+            'Exploration: states on complete manifolds (bond multiplicities min(n_left, n_right)) are evolved with real, imaginary and complex dt by both integrators with exact local exponentials and compared '
+            'with expm(-dt n H) psi0; judged where every bond is saturated on one side for all charge blocks (elsewhere projector splitting is provably not exact; counted). Reversibility on full-rank representations.',
+            'dense reach d^L <= 128 (256 thorough); |dt| ||H|| n <= 3; scipy.linalg.expm trusted', '4 (C09)'),
+    'C10': ('Hypothesis random search over (Hermitian MPO, sector start state, algorithm, sweeps, Lanczos iterations, split tolerance); dense eigvalsh oracle restricted to the charge sector',
+            'Exploration: normalisation, state energy = last reported energy, variational bound against the exact sector ground energy, first energy <= start energy, monotone energies (two-site: tol_split = 0), '
+            'sector confinement, sparsity, immutability of H, repeated invocation; on one-sided complete manifolds with enough iterations the run must end in an eigenstate and, for irreducible sector blocks, in the ground energy.',
+            'dense reach d^L <= 128 (256 thorough); 1e-9 max(1, ||H||); convergence only where it is a theorem for Krylov-based local solvers', '4 (C10)'),
     'C11': ('exhaustive enumeration of small charge layouts + Hypothesis random search, dense-algebra oracle',
             'Exploration: every charge layout over {0,1,2} up to 3x3 (4x4 thorough) with four entry styles is enumerated, plus '
             'thousands of generated block-sparse matrices up to 12x12; each is judged by reconstruction, isometry, '
